@@ -385,9 +385,9 @@ class Advisory:
             advisory: str | bytes,
             routerid: RouterID | None = None,
         ) -> None:
-            # Handle both string and bytes input
-            if isinstance(advisory, bytes):
-                utf8 = advisory
+            # Handle both string and bytes input (what is read from a connection is a memoryview)
+            if isinstance(advisory, (bytes, bytearray, memoryview)):
+                utf8 = bytes(advisory)
             else:
                 utf8 = advisory.encode('utf-8')
             if len(utf8) > MAX_ADVISORY:
@@ -406,9 +406,9 @@ class Advisory:
             advisory: str | bytes,
             routerid: RouterID | None = None,
         ) -> None:
-            # Handle both string and bytes input
-            if isinstance(advisory, bytes):
-                utf8 = advisory
+            # Handle both string and bytes input (what is read from a connection is a memoryview)
+            if isinstance(advisory, (bytes, bytearray, memoryview)):
+                utf8 = bytes(advisory)
             else:
                 utf8 = advisory.encode('utf-8')
             if len(utf8) > MAX_ADVISORY:
